@@ -1,6 +1,5 @@
 import Proofs.DConnect
 import Proofs.Tie.Decode
-import Proofs.Tie.Dec
 /-!
 # C03 — every valid MQTT v5.0 frame is accepted and decoded to the values it carries
 
@@ -54,23 +53,5 @@ example : (SPacket.ack 4 7 .reason 0x10 []).Legal := by constructor <;> decide
 example : (SPacket.connack true 0 [⟨0x21, .u16 0⟩, ⟨0x25, .bool false⟩]).Legal := by constructor <;> decide
 example : (SPacket.disconnect .full 0x8b [⟨0x26, .pair [0x6b] [0x76]⟩, ⟨0x1f, .bin [0x61]⟩]).unparse
     = [0xe0, 0x0d, 0x8b, 0x0b, 0x26, 0x00, 0x01, 0x6b, 0x00, 0x01, 0x76, 0x1f, 0x00, 0x01, 0x61] := by decide
-
-/-- **the decoder these theorems are about is the one in /repo's source**: each packet type's
-`UnmarshalBinary`, translated statement by statement from the Go source on every run together with
-the property-map literals it hands to `getAny` (`Mq/Generated/Dec.lean`), is the hand-written
-decoder of `Mq/Packet/*.lean` that `Packet.unmarshal` dispatches to. -/
-theorem C03_decoder_from_source :
-    (∀ p d, Gen.Connect.unmarshal p d = p.unmarshal d) ∧ (∀ p d, Gen.ConnAck.unmarshal p d = p.unmarshal d)
-    ∧ (∀ p d, Gen.Publish.unmarshal p d = p.unmarshal d) ∧ (∀ p d, Gen.PubAck.unmarshal p d = p.unmarshal d)
-    ∧ (∀ p d, Gen.PubRec.unmarshal p d = p.unmarshal d) ∧ (∀ p d, Gen.PubRel.unmarshal p d = p.unmarshal d)
-    ∧ (∀ p d, Gen.PubComp.unmarshal p d = p.unmarshal d) ∧ (∀ p d, Gen.Subscribe.unmarshal p d = p.unmarshal d)
-    ∧ (∀ p d, Gen.SubAck.unmarshal p d = p.unmarshal d) ∧ (∀ p d, Gen.Unsubscribe.unmarshal p d = p.unmarshal d)
-    ∧ (∀ p d, Gen.UnsubAck.unmarshal p d = p.unmarshal d) ∧ (∀ p d, Gen.PingReq.unmarshal p d = p.unmarshal d)
-    ∧ (∀ p d, Gen.PingResp.unmarshal p d = p.unmarshal d) ∧ (∀ p d, Gen.Disconnect.unmarshal p d = p.unmarshal d)
-    ∧ (∀ p d, Gen.Auth.unmarshal p d = p.unmarshal d) ∧ (∀ p d, Gen.Undefined.unmarshal p d = p.unmarshal d) :=
-  ⟨Tie.Dec.connect_unmarshal, Tie.Dec.connack_unmarshal, Tie.Dec.publish_unmarshal, Tie.Dec.pubAck_unmarshal,
-   Tie.Dec.pubRec_unmarshal, Tie.Dec.pubRel_unmarshal, Tie.Dec.pubComp_unmarshal, Tie.Dec.subscribe_unmarshal,
-   Tie.Dec.subAck_unmarshal, Tie.Dec.unsubscribe_unmarshal, Tie.Dec.unsubAck_unmarshal, Tie.Dec.pingreq_unmarshal,
-   Tie.Dec.pingresp_unmarshal, Tie.Dec.disconnect_unmarshal, Tie.Dec.auth_unmarshal, Tie.Dec.undefined_unmarshal⟩
 
 end Mq
